@@ -291,3 +291,26 @@ def buf(ctx, prog):
         ok = ok and okv
     ctx.ob(R, "hash_buf: declares buffer.len(), feeds the whole buffer once, returns finalize() of the same generator", ok, why, f.loc())
     return len(fd)
+
+
+def io_error_wrap(ctx, prog):
+    """`?` on an I/O error converts it with From<std::io::Error>: the conversion wraps the very error it was given"""
+    f = None
+    for g in prog.fns:
+        if g.impl_trait == "core::convert::From<std::io::Error>" and g.path.endswith("::from") and "GeneratorOrIOError" in g.impl_self:
+            f = g
+    if f is None:
+        return ctx.ob(R, "From<std::io::Error> for GeneratorOrIOError exists", False, "impl not found")
+    ctx.visit(f)
+    e = strip(Sym(f).local(0))
+    ok = e[0] == "agg" and e[1].endswith("GeneratorOrIOError::IOError") and len(e[2]) == 1 and is_param(strip(e[2][0]), "value") and not list(f.calls())
+    ctx.ob(R, "From<std::io::Error> for GeneratorOrIOError wraps the given error itself (IOError(value)), nothing rebuilt from its parts", ok, show(e)[:160], f.loc())
+    g = None
+    for h in prog.fns:
+        if h.impl_trait == "core::convert::From<internals::generate::GeneratorError>" and h.path.endswith("::from") and "GeneratorOrIOError" in h.impl_self:
+            g = h
+    if g is not None:
+        ctx.visit(g)
+        e = strip(Sym(g).local(0))
+        ok = e[0] == "agg" and e[1].endswith("GeneratorOrIOError::GeneratorError") and len(e[2]) == 1 and is_param(strip(e[2][0]), "value")
+        ctx.ob(R, "From<GeneratorError> for GeneratorOrIOError wraps the given error (GeneratorError(value))", ok, show(e)[:160], g.loc())
